@@ -4,12 +4,13 @@
 //
 // Subset understood (anything else: exit 1 naming the function and the construct, which the check
 // turns into a lost tie):
-//   * functions/methods over Int (= int64), uint/uint64 shift counts, *big.Int temporaries, Object results
-//   * statements: := / = / op= on locals, parallel :=, if / else (with the `b, ok := convertToInt(x); ok`
+//   - functions/methods over Int (= int64), uint/uint64 shift counts, *big.Int temporaries, Object results
+//   - statements: := / = / op= on locals, parallel :=, if / else (with the `b, ok := convertToInt(x); ok`
 //     initialiser), goto + labelled tail blocks, return, x.Add/Sub/Mul/Neg/Lsh(...) on *big.Int temporaries,
 //     `r, err := call` / `a, _, err := call` followed by returns that pass err on
-//   * expressions: + - * / % & | ^ << >> unary - ^ !, comparisons, && ||, conversions Int() int64() uint() uint64(),
+//   - expressions: + - * / % & | ^ << >> unary - ^ !, comparisons, && ||, conversions Int() int64() uint() uint64(),
 //     big.NewInt, (*BigInt)(x), (*BigInt)(x).MaybeInt(), NewBool, calls of other translated functions
+//
 // Go semantics used: int64 arithmetic wraps (wrap64), / and % truncate (Int.tdiv/Int.tmod), shifts by an unsigned
 // count (goShl/goShr), math/big is exact.  A value returned together with a non-nil error is not translated
 // (callers must not look at it): `return x, err` with err bound from a call becomes the error branch of a match.
@@ -27,6 +28,29 @@ import (
 	"sort"
 	"strings"
 )
+
+var mode = "int"
+
+// source text of an expression without blanks (to recognise fixed constant idioms)
+func srcOf(e ast.Expr) string {
+	switch x := e.(type) {
+	case *ast.BinaryExpr:
+		return srcOf(x.X) + x.Op.String() + srcOf(x.Y)
+	case *ast.UnaryExpr:
+		return x.Op.String() + srcOf(x.X)
+	case *ast.CallExpr:
+		var as []string
+		for _, a := range x.Args {
+			as = append(as, srcOf(a))
+		}
+		return srcOf(x.Fun) + "(" + strings.Join(as, ",") + ")"
+	case *ast.BasicLit:
+		return x.Value
+	case *ast.ParenExpr:
+		return "(" + srcOf(x.X) + ")"
+	}
+	return exprStr(e)
+}
 
 func die(format string, a ...interface{}) {
 	fmt.Fprintf(os.Stderr, "extract/goint: "+format+"\n", a...)
@@ -51,27 +75,32 @@ var targets = []string{
 type kind int
 
 const (
-	kI    kind = iota // Int / int64 (Lean Int, in range by construction of the wrapping operators)
-	kU                // uint / uint64 shift count (Lean Nat)
-	kB                // *big.Int temporary (Lean Int, exact)
-	kBO               // (*BigInt)(x): a big.Int seen as an Object
-	kO                // Object
-	kBool             // bool
-	kE                // error value
-	kNil              // nil
-	kR1               // result of a call returning (Object, error): Res
-	kR2               // result of a call returning (Object, Object, error)
-	kRI               // (Int, error)
-	kConst            // untyped integer constant
+	kI     kind = iota // Int / int64 (Lean Int, in range by construction of the wrapping operators)
+	kU                 // uint / uint64 shift count (Lean Nat)
+	kB                 // *big.Int temporary (Lean Int, exact)
+	kBO                // (*BigInt)(x): a big.Int seen as an Object
+	kO                 // Object
+	kBool              // bool
+	kE                 // error value
+	kNil               // nil
+	kR1                // result of a call returning (Object, error): Res
+	kR2                // result of a call returning (Object, Object, error)
+	kRI                // (Int, error)
+	kConst             // untyped integer constant
+	kIdx               // slice mode: an index operand (Object) of the hand-written type Idx
+	kSlice             // slice mode: the *Slice receiver
+	kR4                // slice mode: (int, int, int, int, error)
 )
 
 type fn struct {
-	name  string // Go name with receiver type
-	lean  string
-	decl  *ast.FuncDecl
-	recv  string // receiver variable name ("" for plain functions)
-	res   kind   // kO, kR1, kR2, kRI
-	calls map[string]bool
+	name    string // Go name with receiver type
+	lean    string
+	decl    *ast.FuncDecl
+	recv    string // receiver variable name ("" for plain functions)
+	res     kind   // kO, kR1, kR2, kRI
+	calls   map[string]bool
+	named   []string // names of the value results when the results are named (bare return)
+	errName string   // name of the error result when named
 }
 
 var fns = map[string]*fn{}
@@ -98,8 +127,10 @@ func resultKind(fd *ast.FuncDecl, name string) kind {
 		return kR1
 	case "Object,Object,error":
 		return kR2
-	case "Int,error":
+	case "Int,error", "int,error":
 		return kRI
+	case "int,int,int,int,error":
+		return kR4
 	}
 	die("%s: result types (%s) not supported", name, strings.Join(ts, ","))
 	return kO
@@ -127,10 +158,11 @@ type env struct {
 	errOf  map[string]string // error variable -> "nil" or the Lean name of the bound error
 	labels map[string][]ast.Stmt
 	depth  int
+	join   []string // non-nil: the statement list is a branch that falls through; its value is the tuple of these variables
 }
 
 func (e *env) clone() *env {
-	n := &env{f: e.f, vars: map[string]kind{}, errOf: map[string]string{}, labels: e.labels, depth: e.depth}
+	n := &env{f: e.f, vars: map[string]kind{}, errOf: map[string]string{}, labels: e.labels, depth: e.depth, join: e.join}
 	for k, v := range e.vars {
 		n.vars[k] = v
 	}
@@ -185,6 +217,10 @@ func (e *env) expr(x ast.Expr) (string, kind) {
 			return v.Name, kI
 		case "NotImplemented":
 			return "Obj.notImpl", kO
+		case "None":
+			if mode == "slice" {
+				return "Idx.none", kIdx
+			}
 		case "true", "false":
 			return v.Name, kBool
 		}
@@ -222,6 +258,12 @@ func (e *env) expr(x ast.Expr) (string, kind) {
 			case token.LOR:
 				return paren(l) + " || " + paren(r), kBool
 			}
+		}
+		if lk == kIdx && rk == kIdx && (v.Op == token.EQL || v.Op == token.NEQ) {
+			if v.Op == token.EQL {
+				return "decide (" + l + " = " + r + ")", kBool
+			}
+			return "decide (" + l + " ≠ " + r + ")", kBool
 		}
 		if v.Op == token.SHL || v.Op == token.SHR {
 			if (lk == kI) && rk == kU {
@@ -282,6 +324,13 @@ func (e *env) expr(x ast.Expr) (string, kind) {
 			}
 		}
 		e.fail(x, "binary %s on kinds %d,%d", v.Op, lk, rk)
+	case *ast.SelectorExpr:
+		if id, ok := v.X.(*ast.Ident); ok && e.vars[id.Name] == kSlice {
+			if f, ok := map[string]string{"Start": "start", "Stop": "stop", "Step": "step"}[v.Sel.Name]; ok {
+				return id.Name + "." + f, kIdx
+			}
+		}
+		e.fail(x, "selector %s", exprStr(v))
 	case *ast.CallExpr:
 		return e.call(v)
 	}
@@ -294,7 +343,7 @@ func (e *env) args(xs []ast.Expr) []string {
 	for _, a := range xs {
 		s, k := e.expr(a)
 		switch k {
-		case kI, kConst, kO, kU, kB:
+		case kI, kConst, kO, kU, kB, kIdx:
 			out = append(out, paren(s))
 		case kBO:
 			out = append(out, "(Obj.big "+paren(s)+")")
@@ -309,7 +358,15 @@ func (e *env) call(c *ast.CallExpr) (string, kind) {
 	switch f := c.Fun.(type) {
 	case *ast.Ident:
 		switch f.Name {
-		case "Int", "int64":
+		case "sliceIndex":
+			if mode == "slice" && len(c.Args) == 1 {
+				a, k := e.expr(c.Args[0])
+				if k == kIdx {
+					return "sliceIndex " + paren(a), kRI
+				}
+			}
+			e.fail(c, "sliceIndex argument")
+		case "Int", "int64", "int":
 			if len(c.Args) == 1 {
 				s, k := e.expr(c.Args[0])
 				if k == kI || k == kConst {
@@ -391,6 +448,12 @@ func (e *env) asObj(n ast.Node, s string, k kind) string {
 // statement list -> Lean term (the continuation is the rest of the list)
 func (e *env) stmts(ss []ast.Stmt) string {
 	if len(ss) == 0 {
+		if e.join != nil {
+			if len(e.join) == 1 {
+				return e.ind() + e.join[0]
+			}
+			return e.ind() + "(" + strings.Join(e.join, ", ") + ")"
+		}
 		e.fail(e.f.decl, "control reaches the end of the function without return")
 	}
 	s, rest := ss[0], ss[1:]
@@ -419,6 +482,32 @@ func (e *env) stmts(ss []ast.Stmt) string {
 				}
 			}
 		}
+	case *ast.DeclStmt:
+		gd, ok := v.Decl.(*ast.GenDecl)
+		if !ok {
+			break
+		}
+		out := ""
+		n := e.clone()
+		for _, sp := range gd.Specs {
+			vs, ok := sp.(*ast.ValueSpec)
+			if !ok {
+				e.fail(v, "declaration")
+			}
+			for i, name := range vs.Names {
+				switch {
+				case gd.Tok == token.VAR && len(vs.Values) == 0 && exprStr(vs.Type) == "int":
+					out += e.ind() + "let " + name.Name + " : Int := 0\n"
+				case gd.Tok == token.CONST && i < len(vs.Values) && srcOf(vs.Values[i]) == "int(^uint(0)>>1)":
+					// the largest Go int (int is 64 bit on the platforms gpython's Int arithmetic assumes)
+					out += e.ind() + "let " + name.Name + " : Int := 9223372036854775807\n"
+				default:
+					e.fail(v, "declaration of %s", name.Name)
+				}
+				n.vars[name.Name] = kI
+			}
+		}
+		return out + n.stmts(rest)
 	case *ast.IncDecStmt:
 		one := &ast.BasicLit{Kind: token.INT, Value: "1"}
 		op := token.ADD
@@ -492,6 +581,20 @@ func (e *env) assign(v *ast.AssignStmt, rest []ast.Stmt) string {
 	default:
 		e.fail(v, "assignment operator %s", v.Tok)
 	}
+	if len(v.Lhs) == 1 && len(v.Rhs) == 1 {
+		if id, ok := v.Lhs[0].(*ast.Ident); ok {
+			if _, isErr := e.errOf[id.Name]; isErr {
+				if c, ok := v.Rhs[0].(*ast.CallExpr); ok && exprStr(c.Fun) == "ExceptionNewf" && len(c.Args) >= 1 {
+					if en, ok := map[string]string{"ValueError": "Err.value", "TypeError": "Err.type", "IndexError": "Err.index", "OverflowError": "Err.overflow"}[exprStr(c.Args[0])]; ok {
+						n := e.clone()
+						n.errOf[id.Name] = en
+						return n.stmts(rest)
+					}
+				}
+				e.fail(v, "assignment to the error result")
+			}
+		}
+	}
 	if len(v.Lhs) == len(v.Rhs) {
 		if len(v.Lhs) == 1 {
 			return e.assign1(v.Lhs[0], v.Rhs[0], rest, v.Tok == token.DEFINE)
@@ -564,7 +667,119 @@ func (e *env) assign(v *ast.AssignStmt, rest []ast.Stmt) string {
 	return ""
 }
 
+// does control leave the statement list other than by falling off its end (return / goto), or does it bind an error?
+func escapes(ss []ast.Stmt) bool {
+	esc := false
+	for _, s := range ss {
+		ast.Inspect(s, func(n ast.Node) bool {
+			switch x := n.(type) {
+			case *ast.ReturnStmt, *ast.BranchStmt, *ast.LabeledStmt:
+				esc = true
+			case *ast.AssignStmt:
+				if len(x.Lhs) != len(x.Rhs) {
+					esc = true
+				}
+				for _, r := range x.Rhs {
+					if c, ok := r.(*ast.CallExpr); ok && exprStr(c.Fun) == "ExceptionNewf" {
+						esc = true
+					}
+				}
+			case *ast.IfStmt:
+				if x.Init != nil {
+					esc = true
+				}
+			}
+			return !esc
+		})
+	}
+	return esc
+}
+
+// outer variables assigned (not defined) in the statement list, in order of first assignment
+func (e *env) assigned(ss []ast.Stmt) []string {
+	var out []string
+	seen := map[string]bool{}
+	defined := map[string]bool{}
+	add := func(x ast.Expr) {
+		if id, ok := x.(*ast.Ident); ok && !seen[id.Name] && !defined[id.Name] {
+			if _, ok := e.vars[id.Name]; ok {
+				seen[id.Name] = true
+				out = append(out, id.Name)
+			}
+		}
+	}
+	for _, s := range ss {
+		ast.Inspect(s, func(n ast.Node) bool {
+			switch x := n.(type) {
+			case *ast.AssignStmt:
+				for _, l := range x.Lhs {
+					if x.Tok == token.DEFINE {
+						if id, ok := l.(*ast.Ident); ok {
+							defined[id.Name] = true
+						}
+					} else {
+						add(l)
+					}
+				}
+			case *ast.IncDecStmt:
+				add(x.X)
+			}
+			return true
+		})
+	}
+	return out
+}
+
 func (e *env) ifStmt(v *ast.IfStmt, rest []ast.Stmt) string {
+	if v.Init == nil {
+		var elseL []ast.Stmt
+		okShape := true
+		switch b := v.Else.(type) {
+		case nil:
+		case *ast.BlockStmt:
+			elseL = b.List
+		case *ast.IfStmt:
+			elseL = []ast.Stmt{b}
+		default:
+			okShape = false
+		}
+		staticErr := false
+		if be, ok := v.Cond.(*ast.BinaryExpr); ok {
+			if id, ok := be.X.(*ast.Ident); ok {
+				_, staticErr = e.errOf[id.Name]
+			}
+		}
+		if okShape && !staticErr && !escapes(v.Body.List) && !escapes(elseL) {
+			// both branches fall through: the if is a VALUE (the variables it assigns), the rest is translated once
+			vs := e.assigned(append(append([]ast.Stmt{}, v.Body.List...), elseL...))
+			if len(vs) > 0 {
+				c, k := e.expr(v.Cond)
+				if k != kBool {
+					e.fail(v.Cond, "condition of kind %d", k)
+				}
+				tE, eE := e.clone(), e.clone()
+				tE.depth++
+				eE.depth++
+				tE.join, eE.join = vs, vs
+				val := "if " + c + " then\n" + tE.stmts(v.Body.List) + "\n" + e.ind() + "else\n" + eE.stmts(elseL)
+				if len(vs) == 1 {
+					return e.ind() + "let " + vs[0] + " := " + val + "\n" + e.stmts(rest)
+				}
+				out := e.ind() + "let j_ := " + val + "\n"
+				for i, n := range vs {
+					proj := "j_"
+					for k := 0; k < i; k++ {
+						proj += ".2"
+					}
+					if i < len(vs)-1 {
+						proj += ".1"
+					}
+					out += e.ind() + "let " + n + " := " + proj + "\n"
+				}
+				return out + e.stmts(rest)
+			}
+		}
+	}
 	thenE, elseE := e.clone(), e.clone()
 	thenE.depth++
 	elseE.depth++
@@ -604,6 +819,20 @@ func (e *env) ifStmt(v *ast.IfStmt, rest []ast.Stmt) string {
 		}
 		e.fail(v, "if-initialiser shape")
 	}
+	if be, ok := v.Cond.(*ast.BinaryExpr); ok && v.Init == nil && (be.Op == token.NEQ || be.Op == token.EQL) {
+		if id, ok := be.X.(*ast.Ident); ok && exprStr(be.Y) == "nil" {
+			if st, isErr := e.errOf[id.Name]; isErr {
+				// the error variable is statically nil / non-nil on this path
+				isSet := st != "nil"
+				if (be.Op == token.NEQ) == isSet {
+					thenE.depth--
+					return thenE.stmts(thenS)
+				}
+				elseE.depth--
+				return elseE.stmts(elseS)
+			}
+		}
+	}
 	c, k := e.expr(v.Cond)
 	if k != kBool {
 		e.fail(v.Cond, "condition of kind %d", k)
@@ -613,6 +842,19 @@ func (e *env) ifStmt(v *ast.IfStmt, rest []ast.Stmt) string {
 
 func (e *env) ret(v *ast.ReturnStmt) string {
 	rs := v.Results
+	if len(rs) == 0 && len(e.f.named) > 0 {
+		if st := e.errOf[e.f.errName]; st != "nil" {
+			return e.ind() + ".error " + st
+		}
+		var vals []string
+		for _, n := range e.f.named {
+			if e.vars[n] != kI {
+				e.fail(v, "named result %s of kind %d", n, e.vars[n])
+			}
+			vals = append(vals, n)
+		}
+		return e.ind() + ".ok (" + strings.Join(vals, ", ") + ")"
+	}
 	switch e.f.res {
 	case kO:
 		if len(rs) == 1 {
@@ -674,14 +916,19 @@ func translate(f *fn) string {
 	e := &env{f: f, vars: map[string]kind{}, errOf: map[string]string{}, labels: map[string][]ast.Stmt{}}
 	var params []string
 	if f.recv != "" {
-		e.vars[f.recv] = kI
-		params = append(params, "("+f.recv+" : Int)")
+		if mode == "slice" {
+			e.vars[f.recv] = kSlice
+			params = append(params, "("+f.recv+" : Slice)")
+		} else {
+			e.vars[f.recv] = kI
+			params = append(params, "("+f.recv+" : Int)")
+		}
 	}
 	for _, p := range f.decl.Type.Params.List {
 		t := exprStr(p.Type)
 		k, ty := kI, "Int"
 		switch t {
-		case "Int":
+		case "Int", "int":
 		case "Object":
 			k, ty = kO, "Obj"
 		default:
@@ -698,19 +945,43 @@ func translate(f *fn) string {
 			e.labels[l.Label.Name] = append([]ast.Stmt{l.Stmt}, body[i+1:]...)
 		}
 	}
-	rt := map[kind]string{kO: "Obj", kR1: "Res", kR2: "Except Err (Obj × Obj)", kRI: "Except Err Int"}[f.res]
-	return "def " + f.lean + " " + strings.Join(params, " ") + " : " + rt + " :=\n" + e.stmts(body) + "\n"
+	rt := map[kind]string{kO: "Obj", kR1: "Res", kR2: "Except Err (Obj × Obj)", kRI: "Except Err Int", kR4: "Except Err (Int × Int × Int × Int)"}[f.res]
+	pre := ""
+	if f.decl.Type.Results != nil {
+		for _, r := range f.decl.Type.Results.List {
+			for _, n := range r.Names {
+				if exprStr(r.Type) == "error" {
+					f.errName = n.Name
+					e.errOf[n.Name] = "nil"
+				} else {
+					f.named = append(f.named, n.Name)
+					e.vars[n.Name] = kI
+					pre += "  let " + n.Name + " : Int := 0\n"
+				}
+			}
+		}
+	}
+	return "def " + f.lean + " " + strings.Join(params, " ") + " : " + rt + " :=\n" + pre + e.stmts(body) + "\n"
 }
 
 func main() {
+	if len(os.Args) == 4 && os.Args[1] == "slice" {
+		mode = "slice"
+		os.Args = append(os.Args[:1], os.Args[2:]...)
+		targets = []string{"Slice.GetIndices"}
+	}
 	if len(os.Args) != 3 {
-		die("usage: goint <repo> <out.lean>")
+		die("usage: goint [slice] <repo> <out.lean>")
 	}
 	repo, out := os.Args[1], os.Args[2]
+	srcFile, recvType, ns, imp := "int.go", "Int", "GPy.C07", "GPy.C07.Model"
+	if mode == "slice" {
+		srcFile, recvType, ns, imp = "slice.go", "*Slice", "GPy.C13", "GPy.C13.Model"
+	}
 	fset := token.NewFileSet()
-	file, err := parser.ParseFile(fset, filepath.Join(repo, "py", "int.go"), nil, 0)
+	file, err := parser.ParseFile(fset, filepath.Join(repo, "py", srcFile), nil, 0)
 	if err != nil {
-		die("cannot parse py/int.go: %v", err)
+		die("cannot parse py/%s: %v", srcFile, err)
 	}
 	want := map[string]bool{}
 	for _, t := range targets {
@@ -723,10 +994,10 @@ func main() {
 		}
 		name, recv := fd.Name.Name, ""
 		if fd.Recv != nil && len(fd.Recv.List) == 1 {
-			if exprStr(fd.Recv.List[0].Type) != "Int" {
+			if exprStr(fd.Recv.List[0].Type) != recvType {
 				continue
 			}
-			name = "Int." + name
+			name = strings.TrimPrefix(recvType, "*") + "." + name
 			if len(fd.Recv.List[0].Names) == 1 {
 				recv = fd.Recv.List[0].Names[0].Name
 			}
@@ -737,7 +1008,7 @@ func main() {
 	}
 	for _, t := range targets {
 		if fns[t] == nil {
-			die("function %s not found in py/int.go (renamed or removed?)", t)
+			die("function %s not found in py/%s (renamed or removed?)", t, srcFile)
 		}
 	}
 	// the constants the translation relies on
@@ -788,13 +1059,15 @@ func main() {
 		visit(t)
 	}
 	var sb strings.Builder
-	sb.WriteString("/- GENERATED by extract/goint from py/int.go of the working tree - do not edit.\n   One Lean definition per translated Go function; Go semantics as stated in extract/goint/main.go. -/\n")
-	sb.WriteString("import GPy.C07.Model\nnamespace GPy.C07.Gen\nopen GPy GPy.C07\n\n")
-	sb.WriteString("/-- Go `uint64(x)` of an int64 -/\ndef toU64 (x : Int) : Nat := (x % 18446744073709551616).toNat\n\n")
-	sb.WriteString(fmt.Sprintf("/-- constants of py/int.go as written in the source: IntMax = %s, IntMin = %s, sqrtIntMax = %s -/\n", consts["IntMax"], consts["IntMin"], consts["sqrtIntMax"]))
-	sb.WriteString(fmt.Sprintf("def constsAsInSource : List (String × String) := [(\"IntMax\", %q), (\"IntMin\", %q), (\"sqrtIntMax\", %q)]\n\n", consts["IntMax"], consts["IntMin"], consts["sqrtIntMax"]))
+	sb.WriteString("/- GENERATED by extract/goint from py/" + srcFile + " of the working tree - do not edit.\n   One Lean definition per translated Go function; Go semantics as stated in extract/goint/main.go. -/\n")
+	sb.WriteString("import " + imp + "\nnamespace " + ns + ".Gen\nopen GPy " + ns + "\n\n")
+	if mode == "int" {
+		sb.WriteString("/-- Go `uint64(x)` of an int64 -/\ndef toU64 (x : Int) : Nat := (x % 18446744073709551616).toNat\n\n")
+		sb.WriteString(fmt.Sprintf("/-- constants of py/int.go as written in the source: IntMax = %s, IntMin = %s, sqrtIntMax = %s -/\n", consts["IntMax"], consts["IntMin"], consts["sqrtIntMax"]))
+		sb.WriteString(fmt.Sprintf("def constsAsInSource : List (String × String) := [(\"IntMax\", %q), (\"IntMin\", %q), (\"sqrtIntMax\", %q)]\n\n", consts["IntMax"], consts["IntMin"], consts["sqrtIntMax"]))
+	}
 	for _, n := range order {
-		sb.WriteString("/-- `" + n + "` (py/int.go) -/\n" + bodies[n] + "\n")
+		sb.WriteString("/-- `" + n + "` (py/" + srcFile + ") -/\n" + bodies[n] + "\n")
 	}
 	sb.WriteString("def translated : List String := [" + func() string {
 		var q []string
@@ -802,7 +1075,7 @@ func main() {
 			q = append(q, fmt.Sprintf("%q", n))
 		}
 		return strings.Join(q, ", ")
-	}() + "]\n\nend GPy.C07.Gen\n")
+	}() + "]\n\nend " + ns + ".Gen\n")
 	if err := os.MkdirAll(filepath.Dir(out), 0o755); err != nil {
 		die("%v", err)
 	}
